@@ -7,21 +7,84 @@ import (
 	"runtime/pprof"
 	"strings"
 
+	"verif/explore"
 	"verif/lib"
 	"verif/sched"
 )
 
+type syncCase struct {
+	Sync    bool  `json:"sync"`
+	A       []Op  `json:"a"`
+	B       []Op  `json:"b"`
+	Choices []int `json:"choices"`
+}
+
+// runSyncTier explores every ordered pair of scripts of length <= maxLen with
+// every operation-level interleaving and every abort-coin outcome.
+func runSyncTier(c *lib.Ctx, d CheckDef, maxLen int) {
+	scripts := SyncScripts(maxLen)
+	n := len(scripts)
+	if c.Shard == 0 {
+		c.Set("sync_tier_scripts", n)
+		c.Set("sync_tier_script_pairs", n*n)
+	}
+	var execs, pairs int64
+	outcomes := map[uint64]struct{}{}
+	for k := c.Shard; k < n*n; k += c.NShards {
+		if c.Expired() {
+			c.Cap("sync tier: stopped at pair %d of %d on shard %d", k, n*n, c.Shard)
+			break
+		}
+		a, b := scripts[k/n], scripts[k%n]
+		run := func(ch *explore.Chooser) string {
+			obs, f := RunSyncPair(a, b, d.Oracles, ch)
+			if f != nil {
+				// confirm by replaying once: same choices, same failure
+				_, f2 := RunSyncPair(a, b, d.Oracles, &explore.Chooser{Prefix: ch.Rec.Choices})
+				if f2 == nil {
+					lib.Infra("sync tier failure did not reproduce: %s", f.Msg)
+				}
+				c.Fail(f.Class, syncCase{Sync: true, A: a, B: b, Choices: append([]int{}, ch.Rec.Choices...)}, "%s", f.Msg)
+			}
+			return obs
+		}
+		st := explore.Explore(run, explore.Options{Bound: 0, Stop: c.Stopped})
+		execs += st.Executions
+		pairs++
+		for h := range st.Outcomes {
+			outcomes[h^uint64(k)*0x9e3779b97f4a7c15] = struct{}{}
+		}
+		if c.Shard == 0 && k == 0 || (c.NSamples() < 2 && k%97 == 5) {
+			ch := &explore.Chooser{}
+			obs, _ := RunSyncPair(a, b, d.Oracles, ch)
+			c.Sample(map[string]any{"sync_tier_pair": fmt.Sprint(a, " | ", b), "default_interleaving_observation": obs})
+		}
+		if c.Stopped() {
+			break
+		}
+	}
+	c.Eval(int(execs))
+	c.Count("sync_tier_executions", int(execs))
+	c.Count("sync_tier_pairs_done", int(pairs))
+	for h := range outcomes {
+		c.DistinctHash(h)
+	}
+}
+
 // CheckDef configures one txpipe-based check.
 type CheckDef struct {
-	ID             string
-	Groups         []string
-	Oracles        Oracles
-	QuickBound     int
-	ThoroughBound  int
-	Rule           string
-	Assumptions    []string
-	QuickBudget    float64
-	ThoroughBudget float64
+	ID            string
+	Groups        []string
+	Oracles       Oracles
+	QuickBound    int
+	ThoroughBound int
+	Rule          string
+	Assumptions   []string
+	// SyncLen > 0 adds the synchronous tier: all ordered pairs of scripts of
+	// length <= SyncLen (quick) / SyncLenThorough (thorough), all interleavings.
+	SyncLen, SyncLenThorough int
+	QuickBudget              float64
+	ThoroughBudget           float64
 }
 
 var commonAssumptions = []string{
@@ -87,6 +150,12 @@ func Main(d CheckDef) {
 			os.Exit(3)
 		}
 		c.Set("scenarios", len(scs))
+		if n := lib.Pick(c, d.SyncLen, d.SyncLenThorough); n != 0 && os.Getenv("VERIF_ONLY") == "" {
+			runSyncTier(c, d, n)
+		}
+		if os.Getenv("VERIF_SYNC_ONLY") != "" {
+			return
+		}
 		for _, sc := range scs {
 			if c.Expired() {
 				c.Cap("scenario %s not started", sc.Name)
@@ -95,7 +164,18 @@ func Main(d CheckDef) {
 			sched.Explore(c, sc)
 		}
 	}
-	replay := func(c *lib.Ctx, raw json.RawMessage) { sched.Replay(c, build(c, d), raw) }
+	replay := func(c *lib.Ctx, raw json.RawMessage) {
+		var sc syncCase
+		if json.Unmarshal(raw, &sc) == nil && sc.Sync {
+			obs, f := RunSyncPair(sc.A, sc.B, d.Oracles, &explore.Chooser{Prefix: sc.Choices})
+			fmt.Println("observation:", obs)
+			if f != nil {
+				c.Fail(f.Class, sc, "%s", f.Msg)
+			}
+			return
+		}
+		sched.Replay(c, build(c, d), raw)
+	}
 	qb, tb := d.QuickBudget, d.ThoroughBudget
 	if qb == 0 {
 		qb = 100
